@@ -143,12 +143,14 @@ def wellformed(run, ent, op, parents):
 
 # ------------------------------------------------------------------------ C15
 def locked_nodes(rel):
+    """(kind, name) -> list of distinct node objects.  Several distinct nodes may legitimately share a name
+    (process() returns new Materialization nodes named like the originals)."""
     out = {}
     for n in all_nodes(rel):
         if isinstance(n, LeafRelation):
-            out[("leaf", n.name)] = n
+            out.setdefault(("leaf", n.name), []).append(n)
         elif isinstance(n, Materialization):
-            out[("mat", n.name)] = n
+            out.setdefault(("mat", n.name), []).append(n)
     return out
 
 
@@ -157,24 +159,33 @@ def locked_identity(run, ent, op, parents):
         return
     res = locked_nodes(ent.rel)
     nonleaf = False
+    inputs = {}
     for p in parents:
-        for key, node in locked_nodes(p.rel).items():
+        for key, nodes in locked_nodes(p.rel).items():
             if key[0] == "mat":
                 nonleaf = True
-            other = res.get(key)
-            if other is not None:
-                run.stats["locked_nodes_checked"] += 1
-                if other is not node:
-                    run.violate("locked_rewritten", {"node": str(node)[:200], "op": op,
-                                                     "same_target": other.target is node.target if key[0] == "mat" else None},
-                                entry=ent)
-                    return
+            inputs.setdefault(key, []).extend(nodes)
+    for key, nodes in res.items():
+        if key not in inputs:
+            continue
+        for node in nodes:
+            run.stats["locked_nodes_checked"] += 1
+            if not any(node is x for x in inputs[key]):
+                # a locked node of the result that looks like an input's node but is a different object: rewritten
+                orig = inputs[key][0]
+                run.violate("locked_rewritten", {"node": str(orig)[:200], "op": op,
+                                                 "same_target": node.target is orig.target if key[0] == "mat" else None},
+                            entry=ent)
+                return
     if op["k"] in ("xfer", "calc", "proj", "sel", "dedup", "sort", "slice", "mat") and not ent.alias:
         # a unary tree-building call keeps every materialization of its input (it may only add nodes around them)
-        for key, node in locked_nodes(parents[0].rel).items():
-            if key[0] == "mat" and res.get(key) is None:
-                run.violate("locked_dropped", {"node": str(node)[:200], "op": op, "returned": str(ent.rel)[:200]}, entry=ent)
-                return
+        for key, nodes in locked_nodes(parents[0].rel).items():
+            if key[0] == "mat":
+                for node in nodes:
+                    if not any(node is x for x in res.get(key, [])):
+                        run.violate("locked_dropped", {"node": str(node)[:200], "op": op, "returned": str(ent.rel)[:200]},
+                                    entry=ent)
+                        return
     if op["k"] == "mat":
         # materializing a leaf or a materialization adds no new materialization
         t = parents[0]
